@@ -100,7 +100,7 @@ func c16Gen(tier string, emit func(any)) {
 			}
 		}
 	}
-	for _, l := range []string{"unparseable-source", "rewrite-error", "unparseable-result", "missing-path", "missing-path-abs", "missing-path-abs-slash", "missing-path-abs-dots", "missing-path-abs-dotdot", "missing-dir-rel-dots", "missing-patch", "patch-is-directory", "malformed-patch", "missing-patches-file", "patches-file-names-missing-patch", "patches-file-unterminated-names-missing-patch", "patches-file-unterminated-names-malformed-patch", "name-too-long-for-temporary"} {
+	for _, l := range []string{"unparseable-source", "rewrite-error", "unparseable-result", "missing-path", "missing-path-abs", "missing-path-abs-slash", "missing-path-abs-dots", "missing-path-abs-dotdot", "missing-dir-rel-dots", "missing-patch", "patch-is-directory", "malformed-patch", "missing-patches-file", "patches-file-names-missing-patch", "patches-file-unterminated-names-missing-patch", "patches-file-unterminated-names-malformed-patch", "name-too-long-for-temporary", "printer-panic", "engine-panic-after-applied-change"} {
 		for n := 1; n <= 3; n++ {
 			for pos := 0; pos < n; pos++ {
 				emit(&C16Case{Family: "logical", Logical: l, Kinds: make([]string, n), Position: pos})
@@ -629,6 +629,14 @@ func c16Logical(env *core.Env, c *C16Case) core.Outcome {
 				content = "package p\n\nfunc r() {\n\tif cond(v) {\n\t\tfoo(2)\n\t}\n}\n"
 				failing, perFile = name, true
 				wantInStderr = []string{name}
+			case "printer-panic": // the rewritten tree cannot be printed
+				content = "package p\n\nfunc pp() int {\n\tfoo(5)\n\tv := compute(1, 2)\n\treturn v\n}\n"
+				failing, perFile = name, true
+				wantInStderr = []string{name}
+			case "engine-panic-after-applied-change": // an earlier change applies, a later one makes the engine panic
+				content = "package p\n\nfunc ep() {\n\tfoo(6)\n\tsel(1 + 2)\n}\n"
+				failing, perFile = name, true
+				wantInStderr = []string{name}
 			case "name-too-long-for-temporary":
 				// a legal name so long that a sibling with a longer name cannot be created; the patched text is
 				// shorter than the original
@@ -647,6 +655,10 @@ func c16Logical(env *core.Env, c *C16Case) core.Outcome {
 		patchText = "@@\nvar x, y expression\n@@\n-baz(x)\n+qux(x, y)\n\n" + c16Patch
 	case "unparseable-result":
 		patchText = "@@\nvar x expression\n@@\n-cond(x)\n+x == T{}\n\n" + c16Patch
+	case "printer-panic":
+		patchText = c16Patch + "\n@@\nvar x identifier\n@@\n-x := compute(...)\n+x := fallback + ...\n"
+	case "engine-panic-after-applied-change":
+		patchText = c16Patch + "\n@@\nvar x expression\n@@\n-sel(x)\n+bar.x\n"
 	case "name-too-long-for-temporary":
 		patchText = "@@\nvar x expression\n@@\n-foo(x)\n+b()\n"
 	}
